@@ -28,9 +28,9 @@ def kernel_key(fam, mode, backend):
     return f"{rel}::_stats_{fam}_{mode}{suf}"
 
 
-def kernel_args(fam, mode):
-    a = [ArrParam("x1")]
-    if mode == "csd": a.append(ArrParam("x2"))
+def kernel_args(fam, mode, chans=("x1", "x2")):
+    a = [ArrParam(chans[0])]
+    if mode == "csd": a.append(ArrParam(chans[1]))
     a += [ArrParam("starts"), X.var("L"), ArrParam("w", shape=(X.var("L"),)), X.var("omega")]
     if fam == "poly": a.append(ArrParam("Q", 2, shape=(X.var("L"), None)))
     return a
@@ -56,8 +56,16 @@ def reference_slot(fam, mode):
     return Vx * Vx.conj(), Vy * Vy.conj(), Vx * Vy.conj()
 
 
+_REF = {}
+
+
 def reference(fam, mode):
     """regime -> 5-tuple.  regimes: 'K0' (no segment), 'K1' (one), 'K2' (two or more)."""
+    if (fam, mode) not in _REF: _REF[(fam, mode)] = _reference(fam, mode)
+    return _REF[(fam, mode)]
+
+
+def _reference(fam, mode):
     K = X.var("starts.shape0")
     xx, yy, xy = reference_slot(fam, mode)
     mxx = mk_sum("j", K, xx) / K
@@ -135,18 +143,34 @@ class KernelEval:
         s.I = Interp(repo)
         s.cache = {}
 
-    def evaluate(s, fam, mode, backend):
+    def evaluate(s, fam, mode, backend, chans=("x1", "x2")):
         key = kernel_key(fam, mode, backend)
-        if key in s.cache: return s.cache[key]
+        ck = (key, chans)
+        if ck in s.cache: return s.cache[ck]
         if not s.repo.has(key):
             raise AnalysisError(f"kernel {key} not found")
         st = St()
         try:
-            r = s.I.call_key(key, kernel_args(fam, mode), {}, st)
+            r = s.I.call_key(key, kernel_args(fam, mode, chans), {}, st)
         except Unknown as ex:
             r = Opaque(f"interpreter: {ex}")
-        s.cache[key] = (r, st)
+        s.cache[ck] = (r, st)
         return r, st
+
+    def outputs_at(s, fam, mode, backend, k, chans=("x1", "x2")):
+        """5-tuple of X for a concrete segment-count regime (k = 1 or 2), or an Opaque."""
+        val, _ = s.evaluate(fam, mode, backend, chans)
+        leaf, und = leaf_for_K(val, k)
+        if und: return Opaque(f"branch condition not on the segment count: {und[0]}")
+        if is_opaque(leaf): return leaf
+        if not isinstance(leaf, tuple) or len(leaf) != 5: return Opaque("kernel does not return a 5-tuple")
+        out = []
+        for e in leaf:
+            if is_opaque(e): return e
+            x = to_x(e)
+            if x is None: return Opaque("non-scalar kernel output")
+            out.append(x)
+        return tuple(out)
 
 
 def check_kernel(ctx, KE, fam, mode, backend, outputs=OUT, rule="R3-statistics"):
